@@ -39,9 +39,88 @@ def run(ctx, path):
         tp, _ = sshdfam.run_vectors(ctx, [vec], 1, name="replay", fifo_every=1)
         b, _, _ = sshdfam.validate(ctx, tp, "replay", parts=1)
         bad = [x["what"] for x in b if x["what"] == body.get("predicate") or x["what"] in sshdfam.PROPS.get(ctx.pid, ([], []))[1]]
+    elif kind == "schedule":
+        from checks import sshdfam
+        pp = ctx.path("progs.jsonl")
+        open(pp, "w").write(json.dumps({"name": body["program"], "threads": body["threads"], "post": body.get("post") or []}) + "\n")
+        tp = ctx.path("outcomes.ndjson")
+        ctx.run([ctx.go_build("./cmd/trackerconc"), "-in", pp, "-out", tp, "-seed", str(rp.get("seed", 1)),
+                 "-schedule", ",".join(str(x) for x in body["schedule"])], timeout=600)
+        b, _, _ = sshdfam.validate(ctx, tp, "replay", parts=1, module="TrackerLin", cfg="TrackerLin.cfg")
+        bad = [x["what"] for x in b if x["what"] != "StateDiverges"]
+    elif kind == "framing-scenario":
+        from checks import sshdfam
+        sp = ctx.path("scen.jsonl")
+        open(sp, "w").write(json.dumps(body["scenario"]) + "\n")
+        fd = ctx.path("fifos")
+        os.makedirs(fd, exist_ok=True)
+        tp = ctx.path("trace.ndjson")
+        ctx.run([ctx.go_build("./cmd/framing"), "-in", sp, "-out", tp, "-dir", fd, "-seed", str(rp.get("seed", 1)),
+                 "-workers", "1"], timeout=600)
+        b, _, _ = sshdfam.validate(ctx, tp, "replay", parts=1, module="FramingTrace", cfg="FramingTrace.cfg")
+        bad = [x["what"] for x in b]
+    elif kind == "reassembler-scenario":
+        from checks import sshdfam
+        sp = ctx.path("scen.jsonl")
+        open(sp, "w").write(json.dumps({"shapes": body["shapes"], "order": body["order"], "fault": body["fault"],
+                                        "expect": {}}) + "\n")
+        tp = ctx.path("trace.ndjson")
+        ctx.run([ctx.go_build("./cmd/reasm"), "-in", sp, "-out", tp, "-seed", str(rp.get("seed", 1)), "-backlogevery", "1"],
+                timeout=600)
+        b, _, _ = sshdfam.validate(ctx, tp, "replay", parts=1, module="ReasmTrace", cfg="ReasmTrace.cfg")
+        bad = [x["what"] for x in b]
+    elif kind == "worker-scenario":
+        from checks import sshdfam
+        sp = ctx.path("scen.json")
+        json.dump([body["scenario"]], open(sp, "w"))
+        fd = ctx.path("fifos")
+        os.makedirs(fd, exist_ok=True)
+        tp = ctx.path("trace.ndjson")
+        ctx.run([ctx.go_build("./cmd/workers"), "-in", sp, "-out", tp, "-dir", fd, "-reps", "3"], timeout=600)
+        b, _, _ = sshdfam.validate(ctx, tp, "replay", parts=1, module="PipelineTrace", cfg="PipelineTrace.cfg")
+        bad = [x["what"] for x in b if x["what"] != "StateNotReached"]
+    elif kind == "daemon-scenario":
+        from checks import sshdfam, pipeline
+        binp = pipeline.build_daemon(ctx)
+        tp = ctx.path("trace.ndjson")
+        with open(tp, "w") as f:
+            for i in range(3):
+                f.write(json.dumps(pipeline.run_daemon_scenario(ctx, binp, i, body["cause"], body["load"])) + "\n")
+        b, _, _ = sshdfam.validate(ctx, tp, "replay", parts=1, module="PipelineTrace", cfg="PipelineTrace.cfg")
+        bad = [x["what"] for x in b if x["what"] != "ScenarioNotEstablished"]
+    elif kind in ("health-seq", "health-conc", "health-wait"):
+        from checks import sshdfam
+        r = body["record"]
+        mode = kind.split("-")[1]
+        item = ({"ops": r["ops"]} if mode == "seq" else
+                {"name": r["name"], "pre": r["pre"], "threads": r["threads"]} if mode == "conc" else r["script"])
+        if mode == "seq":
+            item = r["ops"]
+        ip = ctx.path("in.jsonl")
+        open(ip, "w").write(json.dumps(item) + "\n")
+        tp = ctx.path("trace.ndjson")
+        ctx.run([ctx.go_build("./cmd/healthh"), "-mode", mode, "-in", ip, "-out", tp, "-seed", str(rp.get("seed", 1)),
+                 "-cap", "600000"], timeout=1200)
+        b, _, _ = sshdfam.validate(ctx, tp, "replay", parts=1, module="HealthTrace", cfg="HealthTrace.cfg")
+        bad = [x["what"] for x in b]
+    elif kind == "dirreader-scenario":
+        from checks import sshdfam
+        ex = ctx.tlc("DirReaderMC", "DirReader_export.cfg", workers=1, timeout=600, name="inits", overrides={"MaxOps": "0"})
+        inits = vlib.tlc_prints(ex["stdout"], "INITS")[0]
+        idx = inits.index(body["init"]) + 1
+        sp, ip = ctx.path("scen.jsonl"), ctx.path("inits.json")
+        open(sp, "w").write(json.dumps({"init": idx, "ops": body["ops"]}) + "\n")
+        json.dump(inits, open(ip, "w"))
+        rd = ctx.path("real")
+        os.makedirs(rd, exist_ok=True)
+        tp = ctx.path("trace.ndjson")
+        ctx.run([ctx.go_build("./cmd/dirreaderh"), "-in", sp, "-inits", ip, "-out", tp, "-seed", str(rp.get("seed", 1)),
+                 "-dir", rd], timeout=600)
+        b, _, _ = sshdfam.validate(ctx, tp, "replay", parts=1, module="DirReaderTrace", cfg="DirReaderTrace.cfg")
+        bad = [x["what"] for x in b]
     else:
-        log("this kind of replay is re-run by the check itself: VERIF_SEED=%s ./bin/check %s --tier %s" % (
-            rp.get("seed"), ctx.pid, rp.get("tier", "quick")))
+        log("this kind of replay (%s) is re-run by the check itself: VERIF_SEED=%s ./bin/check %s --tier %s" % (
+            kind, rp.get("seed"), ctx.pid, rp.get("tier", "quick")))
         log(json.dumps(body, indent=1)[:4000])
         return 2
     if bad:
